@@ -104,6 +104,7 @@ type Client struct {
 	Pinged         bool   // the h2ping step has seen its acknowledgement
 	TunnelEcho     []byte // bytes echoed back through an upgraded connection
 	Continues      int    // 100 (Continue) responses received in h1expect steps
+	Marks          []int  // h2mark steps: body bytes received at that moment
 	stalled        bool
 	AbortedAt      time.Duration
 	ConnectedAt    time.Duration
@@ -390,8 +391,18 @@ func (c *Client) exec(s *Step) error {
 			return err
 		}
 		return c.h1recv(s)
-	case "h2await", "h2headers":
+	case "h2await", "h2headers", "h2bytes":
 		return c.h2await(s)
+	case "h2mark":
+		// remember how many body bytes of the stream have arrived by now
+		c.W.mu.Lock()
+		n := 0
+		if st := c.Streams[s.Streams[0]]; st != nil {
+			n = len(st.Body)
+		}
+		c.Marks = append(c.Marks, n)
+		c.W.mu.Unlock()
+		return nil
 	case "h2ping":
 		// wait for the acknowledgement of the barrier PING (payload starts with 0xfc)
 		for {
@@ -733,6 +744,13 @@ func (c *Client) h2await(s *Step) error {
 		ok := true
 		for _, id := range s.Streams {
 			st := c.Streams[id]
+			if s.Kind == "h2bytes" {
+				// at least DelayMS (sic: a byte count here) body bytes of the stream have arrived
+				if st == nil || !(len(st.Body) >= s.DelayMS || st.Ended || st.RST) {
+					ok = false
+				}
+				continue
+			}
 			if s.Kind == "h2headers" {
 				// only the response's header block (or the end of the stream) is waited for
 				if st == nil || !(st.Headers > 0 || st.Ended || st.RST) {
